@@ -338,12 +338,12 @@ theorem C04_duplicate_first_wins_witness :
 
 /-- an entry the loader rejects (size limit: C10 forbids showing it; symbolic link out of the root): the specification reads
 it as a whiteout of its path (`specEffective`), the loader drops it (`effective`).  Layer 1 replaces `a` by a file of
-MaxFileBytes or more: view 1 of the loader still has layer 0's `a` (known finding C04/rejected-entry-shows-older-file) -/
+MaxFileBytes or more: view 1 has no `a` (since fix <P3>; before, layer 0's `a` showed through) -/
 def exRej : List (List PEntry) :=
   [[⟨fE ["a"] 1, ["a"], .accept⟩], [⟨⟨["a"], .file, false, 0o644, 100, 2, []⟩, ["a"], .big⟩]]
-theorem C04_view_fails_rejected :
-    obsOf ((viewOf (exRej.map effective) 1).get ["a"]) ≠ obsOf ((specView (exRej.map specEffective) 1).get ["a"]) ∧
-    obsOf ((specView (exRej.map specEffective) 1).get ["a"]) = .absent ∧ rejectedShadowsAt exRej 1 = true := by decide
+theorem C04_view_rejected_fixed :
+    obsOf ((viewOf (exRej.map effective) 1).get ["a"]) = .absent ∧
+    obsOf ((specView (exRej.map specEffective) 1).get ["a"]) = .absent := by decide
 
 /-- **C04 with rejected entries, partial form**: where `H` holds and reading the rejected entries as whiteouts changes
 nothing in view `j` (decided by the driver path by path; it is so whenever no rejected entry has anything older, or of its
